@@ -12,6 +12,8 @@
    uok u                   user-level precondition of construct: parts of an AtomicMultiChannelPT are atomic
    guard_C03_function_zero p rho drop   no reached function atom has an expression that cannot be evaluated but
                            whose symbolic residual is closed (known finding function-zero-factor-hides-missing-parameter)
+   Ren inner r             the channel_mapping of a MappingPT (inner channel -> outer channel); every theorem below
+                           quantifies over trees with renamings and over the set `drop` of dropped outer channels
    refines a b             a = b, or a = Err Missing, or b = Err Missing and a = Err Other
    refines_u a b           a = b, or a = Err Missing, or b = Err Missing                                              *)
 From Coq Require Import ZArith QArith Bool List.
